@@ -1011,8 +1011,10 @@ where
 {
     let index: usize = Deserialize::deserialize(deserializer)?;
     take_os_ipc_channel_for_deserialization(index)
-        .map(|mut os_ipc_channel| os_ipc_channel.to_sender())
-        .ok_or_else(|| serde::de::Error::custom("channel index out of range or already used"))
+        .and_then(|mut os_ipc_channel| platform::attachment::to_sender(&mut os_ipc_channel))
+        .ok_or_else(|| {
+            serde::de::Error::custom("channel index out of range, already used, or not a sender")
+        })
 }
 
 fn serialize_os_ipc_receiver<S>(
@@ -1038,6 +1040,8 @@ where
     let index: usize = Deserialize::deserialize(deserializer)?;
 
     take_os_ipc_channel_for_deserialization(index)
-        .map(|mut os_ipc_channel| os_ipc_channel.to_receiver())
-        .ok_or_else(|| serde::de::Error::custom("channel index out of range or already used"))
+        .and_then(|mut os_ipc_channel| platform::attachment::to_receiver(&mut os_ipc_channel))
+        .ok_or_else(|| {
+            serde::de::Error::custom("channel index out of range, already used, or not a receiver")
+        })
 }
